@@ -722,3 +722,109 @@ func (g *G) ListUsersRequests(m *rm.Model, n int) []Request {
 	}
 	return out
 }
+
+// CycleTuples builds tuples that form userset cycles of 1-4 (object, relation) atoms where the
+// model's type restrictions allow it, hangs a direct user tuple and a dead-end userset off the
+// cycle, and returns the tuples plus the atoms ("type:id#rel") on the cycle in order.
+func (g *G) CycleTuples(m *rm.Model) (tuples []rm.Tuple, atoms []string) {
+	type node struct{ t, r string }
+	adj := map[node][]rm.Restriction{}
+	var nodes []node
+	for _, t := range m.Types {
+		for _, r := range t.Relations {
+			n := node{t.Name, r.Name}
+			for _, res := range r.Restrictions {
+				if res.Relation != "" {
+					adj[n] = append(adj[n], res)
+				}
+			}
+			if len(adj[n]) > 0 {
+				nodes = append(nodes, n)
+			}
+		}
+	}
+	if len(nodes) == 0 {
+		return nil, nil
+	}
+	// random walk until we come back to a visited node
+	for try := 0; try < 20; try++ {
+		start := Pick(g, nodes)
+		path := []node{start}
+		conds := []string{}
+		cur := start
+		closed := -1
+		for len(path) <= 4 {
+			outs := adj[cur]
+			if len(outs) == 0 {
+				break
+			}
+			res := Pick(g, outs)
+			nxt := node{res.Type, res.Relation}
+			conds = append(conds, res.Cond)
+			for i, p := range path {
+				if p == nxt {
+					closed = i
+				}
+			}
+			if closed >= 0 {
+				break
+			}
+			path = append(path, nxt)
+			cur = nxt
+		}
+		if closed < 0 {
+			continue
+		}
+		cyc := path[closed:]
+		cconds := conds[closed:]
+		// instantiate: atom i = type:id_i#rel ; tuple atom_i <- userset atom_{i+1}; last <- atom_0
+		ids := make([]string, len(cyc))
+		for i := range cyc {
+			ids[i] = Pick(g, objIDs)
+		}
+		if len(cyc) == 1 {
+			// self loop needs two different objects to be a proper cycle of length 2
+			cyc = append(cyc, cyc[0])
+			cconds = append(cconds, cconds[0])
+			ids = []string{"1", "2"}
+		}
+		mk := func(i int) string { return cyc[i].t + ":" + ids[i] }
+		for i := range cyc {
+			j := (i + 1) % len(cyc)
+			t := rm.Tuple{Obj: mk(i), Rel: cyc[i].r, User: mk(j) + "#" + cyc[j].r, Cond: cconds[i]}
+			if t.Cond != "" {
+				t.Ctx = g.condCtx(m, t.Cond, true)
+			}
+			if t.User == t.Obj+"#"+t.Rel {
+				continue
+			}
+			tuples = append(tuples, t)
+			atoms = append(atoms, mk(i)+"#"+cyc[i].r)
+		}
+		// a direct member somewhere on the cycle, and a dead-end userset on another atom
+		for i := range cyc {
+			rel := m.Rel(cyc[i].t, cyc[i].r)
+			for _, res := range rel.Restrictions {
+				if res.Relation == "" && !res.Wildcard && m.Type(res.Type) != nil && len(m.Type(res.Type).Relations) == 0 && g.Chance(0.5) {
+					t := rm.Tuple{Obj: mk(i), Rel: cyc[i].r, User: res.Type + ":" + Pick(g, userIDs), Cond: res.Cond}
+					if t.Cond != "" {
+						t.Ctx = g.condCtx(m, t.Cond, true)
+					}
+					tuples = append(tuples, t)
+				}
+			}
+			if g.Chance(0.5) {
+				res := Pick(g, adj[cyc[i]])
+				t := rm.Tuple{Obj: mk(i), Rel: cyc[i].r, User: res.Type + ":" + Pick(g, objIDs) + "#" + res.Relation, Cond: res.Cond}
+				if t.Cond != "" {
+					t.Ctx = g.condCtx(m, t.Cond, true)
+				}
+				if t.User != t.Obj+"#"+t.Rel {
+					tuples = append(tuples, t)
+				}
+			}
+		}
+		return tuples, atoms
+	}
+	return nil, nil
+}
